@@ -361,3 +361,34 @@ package seat_manager
 //@   ensures newcomers: err == nil ==> forall(s, 0, sm.MaxSeat, sm.SeatData[s] != old(sm.SeatData[s])
 //@             ==> occ(sm, s) && fresh(sm.SeatData[s]) && newcomerAt(sm, sm.SeatData[s].ID, s) && indom(playerSeatIDs, sm.SeatData[s].ID) && playerSeatIDs[sm.SeatData[s].ID] == s)
 //@   ensures others-untouched: err == nil ==> forall(s, 0, sm.MaxSeat, sm.SeatData[s] == old(sm.SeatData[s]) || any(id, indom(playerSeatIDs, id) && playerSeatIDs[id] == s))
+
+//@ func (*seatManager).randomSeatIDs
+//@   property C03
+//@   returns ids, err
+//@   config M 2..10 : sm.MaxSeat = M, len(sm.SeatData) = M
+//@   requires SmBase(sm) && 0 <= count
+//@   modifies nothing
+//@   ensures refused: err != nil ==> err == ErrNotEnoughSeats && ids == nil
+//@   ensures full-table-refused: count >= 1 && forall(s, 0, sm.MaxSeat, occ(sm, s)) ==> err != nil
+//@   ensures seats: err == nil ==> len(ids) == count && count <= sm.MaxSeat && fresh(ids)
+//@             && forall(i, 0, sm.MaxSeat, i < count ==> inRange(sm, ids[i]) && !occ(sm, ids[i]))
+//@             && forall(i, 0, sm.MaxSeat, forall(j, 0, sm.MaxSeat, i < j && j < count ==> ids[i] != ids[j]))
+
+//@ spec inBatch(playerIDs, id) = exists(i, 0, 10, i < len(playerIDs) && playerIDs[i] == id)
+
+//@ func (*seatManager).RandomAssignSeats
+//@   property C03 C05 C16
+//@   returns err
+//@   config M 2..10 : sm.MaxSeat = M, len(sm.SeatData) = M
+//@   requires SmWF(sm) && !held(sm.mu) && 0 <= len(playerIDs) && len(playerIDs) <= sm.MaxSeat     // batches no larger than the table
+//@   modifies sm.SeatData[all]
+//@   loop 0 unroll M
+//@   loop 2 unroll M
+//@   ensures inv: SmWF(sm)
+//@   ensures refused-changes-nothing: err != nil ==> forall(s, 0, sm.MaxSeat, sm.SeatData[s] == old(sm.SeatData[s]))
+//@   ensures full-table-refused: len(playerIDs) >= 1 && forall(s, 0, sm.MaxSeat, old(occ(sm, s))) ==> err != nil
+//@   ensures already-seated-refused: exists(i, 0, 10, i < len(playerIDs) && old(seated(sm, playerIDs[i]))) ==> err != nil
+//@   ensures duplicate-refused: exists(i, 0, 10, exists(j, 0, 10, i < j && j < len(playerIDs) && playerIDs[i] == playerIDs[j])) ==> err != nil
+//@   ensures seated: err == nil ==> forall(i, 0, sm.MaxSeat, i < len(playerIDs) ==> seated(sm, playerIDs[i]))
+//@   ensures newcomers: err == nil ==> forall(s, 0, sm.MaxSeat, sm.SeatData[s] != old(sm.SeatData[s])
+//@             ==> !old(occ(sm, s)) && occ(sm, s) && fresh(sm.SeatData[s]) && newcomerAt(sm, sm.SeatData[s].ID, s) && inBatch(playerIDs, sm.SeatData[s].ID))
